@@ -78,6 +78,7 @@ func runC05(c *Ctx) {
 	if len(sanitizers) < 3 {
 		c.viol("C05.R1", "anchor-lost:value-sanitisers", "", fmt.Sprintf("only %d value sanitisers reachable from SanitizeCSSValue", len(sanitizers)))
 	}
+	c05Predicates, c05PredicatesUsed = charPredicates(sp), map[*types.Func]bool{}
 	regexVars := map[string]string{}
 	for _, nm := range sp.Types.Scope().Names() {
 		if v, ok := sp.Types.Scope().Lookup(nm).(*types.Var); ok && v.Type().String() == "*regexp.Regexp" {
@@ -133,7 +134,33 @@ func runC05(c *Ctx) {
 				fmt.Sprintf("pattern %s accepts a string containing %q: a comment could swallow the rest of the style sheet", nm, which))
 		}
 	}
-	c.floor("C05.R2", 4)
+	// the character-class predicates the sanitisers rely on: the same alphabet rule (they are anchored by construction:
+	// every character is looked at)
+	var pnames []*types.Func
+	for fn := range c05PredicatesUsed {
+		pnames = append(pnames, fn)
+	}
+	sort.Slice(pnames, func(i, j int) bool { return pnames[i].Name() < pnames[j].Name() })
+	for _, fn := range pnames {
+		cp := c05Predicates[fn]
+		bad := ""
+		for _, r := range forbidden {
+			if cp.accepts(r) {
+				bad += fmt.Sprintf("%q ", string(r))
+			}
+		}
+		// (positive control per predicate: it accepts something)
+		some := false
+		for r := rune(0x20); r < 0x7f; r++ {
+			if cp.accepts(r) {
+				some = true
+			}
+		}
+		c.check(bad == "" && some, "C05.R2", sp.PkgPath+"."+fn.Name()+"|predicate-safe-alphabet", c.pos(cp.decl.Pos()), "every character is tested; the class excludes the terminators",
+			fmt.Sprintf("the character-class predicate %s admits %s(or nothing at all): a value it accepts can end its declaration", fn.Name(), bad))
+	}
+	// (R1 accepts only these validators, so this rule cannot pass with none of them in use)
+	c.floor("C05.R2", 2)
 
 	// R3 ------------------------------------------------------------
 	g := c.gem()
@@ -1070,6 +1097,12 @@ func passThroughValidatedAt(c *Ctx, p *packages.Package, fd *ast.FuncDecl, regex
 				return viewRoot(call.Args[0], env, 0), fmt.Sprintf("ContainsAny %q", set)
 			}
 		}
+		// a hand-written character-class predicate (every character of the argument is in the class); its alphabet is
+		// judged under R2 like a pattern's
+		if cp := c05Predicates[fn]; cp != nil && pc.Val && len(call.Args) == 1 {
+			c05PredicatesUsed[fn] = true
+			return viewRoot(call.Args[0], env, 0), "character-class predicate " + fn.Name()
+		}
 		return nil, ""
 	}
 	isPassThrough := func(e ast.Expr, env map[types.Object]ast.Expr) bool {
@@ -1109,7 +1142,8 @@ func passThroughValidatedAt(c *Ctx, p *packages.Package, fd *ast.FuncDecl, regex
 	}
 	// piece loops: range over strings.Split*(param, …)
 	type loopInfo struct {
-		rs    *ast.RangeStmt
+		pos   token.Pos
+		body  []ast.Stmt
 		piece types.Object
 	}
 	var loops []loopInfo
@@ -1131,12 +1165,104 @@ func passThroughValidatedAt(c *Ctx, p *packages.Package, fd *ast.FuncDecl, regex
 				if fn := calleeOf(info, call); fn != nil && (strings.HasPrefix(fullName(fn), "strings.Split") || strings.HasPrefix(fullName(fn), "strings.Fields")) {
 					if viewRoot(call.Args[0], nil, 0) == param {
 						if vid, ok := rs.Value.(*ast.Ident); ok {
-							loops = append(loops, loopInfo{rs, info.ObjectOf(vid)})
+							loops = append(loops, loopInfo{rs.Pos(), rs.Body.List, info.ObjectOf(vid)})
 						}
 					}
 				}
 			}
 		}
+		return true
+	})
+	// … or a loop that cuts one piece off the rest of the input per iteration, until nothing is left:
+	// for rest, more := v, true; more; { piece, rest, more = strings.Cut(rest, ",") … }
+	ast.Inspect(fd.Body, func(n ast.Node) bool {
+		fs, ok := n.(*ast.ForStmt)
+		if !ok || fs.Cond == nil || fs.Post != nil {
+			return true
+		}
+		moreID, ok := ast.Unparen(fs.Cond).(*ast.Ident)
+		if !ok {
+			return true
+		}
+		more := info.ObjectOf(moreID)
+		var cut *ast.AssignStmt
+		for _, st := range fs.Body.List {
+			if as, ok := st.(*ast.AssignStmt); ok && len(as.Lhs) == 3 && len(as.Rhs) == 1 {
+				if call, ok := ast.Unparen(as.Rhs[0]).(*ast.CallExpr); ok {
+					if fn := calleeOf(info, call); fn != nil && fullName(fn) == "strings.Cut" {
+						cut = as
+					}
+				}
+			}
+		}
+		if cut == nil {
+			return true
+		}
+		pieceID, ok1 := cut.Lhs[0].(*ast.Ident)
+		restID, ok2 := cut.Lhs[1].(*ast.Ident)
+		more2, ok3 := cut.Lhs[2].(*ast.Ident)
+		argID, ok4 := ast.Unparen(cut.Rhs[0].(*ast.CallExpr).Args[0]).(*ast.Ident)
+		if !ok1 || !ok2 || !ok3 || !ok4 || info.ObjectOf(more2) != more || info.ObjectOf(argID) != info.ObjectOf(restID) {
+			return true
+		}
+		rest := info.ObjectOf(restID)
+		// the rest starts as the input, and neither it nor the flag is assigned anywhere else
+		startsAtInput, others := false, 0
+		ast.Inspect(fd.Body, func(m ast.Node) bool {
+			as, ok := m.(*ast.AssignStmt)
+			if !ok || as == cut {
+				return true
+			}
+			for i, l := range as.Lhs {
+				lid, ok := l.(*ast.Ident)
+				if !ok {
+					continue
+				}
+				switch info.ObjectOf(lid) {
+				case rest:
+					if len(as.Lhs) == len(as.Rhs) && viewRoot(as.Rhs[i], nil, 0) == param && (as == fs.Init || as.Pos() < fs.Pos()) && !startsAtInput {
+						startsAtInput = true
+					} else {
+						others++
+					}
+				case more:
+					if tv, ok := info.Types[as.Rhs[min(i, len(as.Rhs)-1)]]; as == fs.Init && len(as.Lhs) == len(as.Rhs) && ok && tv.Value != nil && constant.BoolVal(tv.Value) {
+						continue
+					}
+					others++
+				}
+			}
+			return true
+		})
+		leaves := false // break / goto: pieces could be left unvisited
+		var walk func(n ast.Node, inner bool)
+		walk = func(n ast.Node, inner bool) {
+			ast.Inspect(n, func(m ast.Node) bool {
+				switch x := m.(type) {
+				case *ast.ForStmt, *ast.RangeStmt, *ast.SwitchStmt, *ast.TypeSwitchStmt, *ast.SelectStmt:
+					if m != n {
+						walk(m, true)
+						return false
+					}
+				case *ast.BranchStmt:
+					if x.Tok == token.GOTO || x.Label != nil || x.Tok == token.BREAK && !inner {
+						leaves = true
+					}
+				}
+				return true
+			})
+		}
+		walk(fs.Body, false)
+		if !startsAtInput || others > 0 || leaves || fs.Body.List[0] != ast.Stmt(cut) && !(len(fs.Body.List) > 1 && fs.Body.List[1] == ast.Stmt(cut)) {
+			return true
+		}
+		var body []ast.Stmt
+		for _, st := range fs.Body.List {
+			if st != ast.Stmt(cut) {
+				body = append(body, st)
+			}
+		}
+		loops = append(loops, loopInfo{fs.Pos(), body, info.ObjectOf(pieceID)})
 		return true
 	})
 	npass := 0
@@ -1188,9 +1314,9 @@ func passThroughValidatedAt(c *Ctx, p *packages.Package, fd *ast.FuncDecl, regex
 	}
 	for li, lp := range loops {
 		ld := &denum{info: info, pkg: p.Types, inits: map[types.Object]ast.Expr{}, limit: 20000, opaqueLoops: true, loopBody: true, decls: decls}
-		ld.finish(ld.run(lp.rs.Body.List, []dstate{{env: map[types.Object]ast.Expr{}}}))
+		ld.finish(ld.run(lp.body, []dstate{{env: map[types.Object]ast.Expr{}}}))
 		if ld.undecided != "" {
-			c.undec("C05.R1", fmt.Sprintf("%s|piece-loop#%d", key, li+1), c.pos(lp.rs.Pos()), fd.Name.Name+": the loop over the pieces contains "+ld.undecided)
+			c.undec("C05.R1", fmt.Sprintf("%s|piece-loop#%d", key, li+1), c.pos(lp.pos), fd.Name.Name+": the loop over the pieces contains "+ld.undecided)
 			continue
 		}
 		nacc := 0
@@ -1250,10 +1376,10 @@ func passThroughValidatedAt(c *Ctx, p *packages.Package, fd *ast.FuncDecl, regex
 		}
 		if quotedPaths > 0 {
 			*nQuoted = *nQuoted + 1
-			c.check(quotedBad == "", "C05.R1", fmt.Sprintf("%s|quoted-arm#%d|interior-bans-its-delimiters", key, li+1), c.pos(lp.rs.Pos()), fmt.Sprintf("%d accepting path(s) through a quoted form; the accepted opening quotes, backslash and newline are banned inside", quotedPaths),
+			c.check(quotedBad == "", "C05.R1", fmt.Sprintf("%s|quoted-arm#%d|interior-bans-its-delimiters", key, li+1), c.pos(lp.pos), fmt.Sprintf("%d accepting path(s) through a quoted form; the accepted opening quotes, backslash and newline are banned inside", quotedPaths),
 				fmt.Sprintf("%s: %s: the value closes its own string early and the rest of it is read as CSS (`'a';}body{display:none;x:'b'` ends the declaration and the rule)", fd.Name.Name, quotedBad))
 		}
-		c.check(good && nacc > 0, "C05.R1", fmt.Sprintf("%s|piece-loop#%d|accepted-pieces-validated", key, li+1), c.pos(lp.rs.Pos()), fmt.Sprintf("%d accepting path(s) per piece, each through a whole-piece validator (%s)", nacc, kind),
+		c.check(good && nacc > 0, "C05.R1", fmt.Sprintf("%s|piece-loop#%d|accepted-pieces-validated", key, li+1), c.pos(lp.pos), fmt.Sprintf("%d accepting path(s) per piece, each through a whole-piece validator (%s)", nacc, kind),
 			fmt.Sprintf("%s accepts a piece of its input without a whole-piece validator on the way (%s) — only its ends or its URL grammar were tested — and then returns the input unchanged: the piece can close its string/url token and continue with arbitrary CSS", fd.Name.Name, badWhy))
 	}
 }
@@ -1615,3 +1741,6 @@ func quotedArm(info *types.Info, pth dpath) (quotes []string, banned string) {
 	}
 	return
 }
+
+var c05Predicates map[*types.Func]*charPredicate
+var c05PredicatesUsed map[*types.Func]bool
